@@ -252,6 +252,14 @@ impl Value {
                 let Boxed(value) = arr.into_scalar().unwrap();
                 value.parse_num(env)?
             }
+            (_, val @ (Value::Char(_) | Value::Box(_))) if val.row_count() == 0 => {
+                // There are no rows to take the rest of the shape from
+                let mut shape = val.shape.clone();
+                if let Value::Char(_) = val {
+                    shape.pop();
+                }
+                Array::<f64>::new(shape, CowSlice::new()).into()
+            }
             (_, val @ (Value::Char(_) | Value::Box(_))) => {
                 let mut rows = Vec::with_capacity(val.row_count());
                 for row in val.into_rows() {
@@ -472,6 +480,14 @@ impl Value {
             (0, Value::Box(arr)) => {
                 let Boxed(value) = arr.into_scalar().unwrap();
                 value.parse_base(base, env)?
+            }
+            (_, val @ (Value::Char(_) | Value::Box(_))) if val.row_count() == 0 => {
+                // There are no rows to take the rest of the shape from
+                let mut shape = val.shape.clone();
+                if let Value::Char(_) = val {
+                    shape.pop();
+                }
+                Array::<f64>::new(shape, CowSlice::new()).into()
             }
             (_, val @ (Value::Char(_) | Value::Box(_))) => {
                 let mut rows = Vec::with_capacity(val.row_count());
